@@ -142,3 +142,86 @@ var zzWitness = map[string]string{
 	"NilCoalescingOpExpr": "a ?? b", "MakeTypeExpr": "make(type t, x)", "LenExpr": "len(x)",
 	"SliceExpr": "a[i:j:k]", "SwitchCaseStmt": "switch a { case b: c }",
 }
+
+// ZZ_C17_walk_pairs: the step lemma assumes that what Walk does at a node does
+// not depend on the kinds of its children.  That assumption is itself checked
+// here: parent kind x child kind, every expression / statement / operator
+// position of the parent filled with a node of the child kind (an operator in
+// an expression position is wrapped in the OpExpr the parser builds, so
+// `x *= e` = LetsExpr > OpExpr > MultiplyOperator is one of the shapes).  Every
+// node of the three levels is presented exactly once, after its parent.
+func ZZ_C17_walk_pairs() {
+	k1 := zz.Choose(len(zzKinds))
+	k2 := zz.Choose(len(zzKinds))
+	n := 1 + zz.Choose(2)
+	var kids, extra []interface{}
+	parentOf := map[interface{}]interface{}{}
+	mkChild := func() interface{} {
+		var k2kids, k2extra []interface{}
+		node := zzBuild(k2, zzLeafMakers(1, false, &k2extra), &k2kids)
+		for _, c := range append(k2kids, k2extra...) {
+			extra = append(extra, c)
+		}
+		for _, c := range k2kids {
+			parentOf[c] = node
+		}
+		return node
+	}
+	leaf := zzLeafMakers(n, false, &extra)
+	makers := &zzMakers{
+		Expr: func(field string, i int) ast.Expr {
+			switch zzKindCat[k2] {
+			case "expr":
+				return mkChild().(ast.Expr)
+			case "op":
+				op := mkChild().(ast.Operator)
+				extra = append(extra, op)
+				w := &ast.OpExpr{Op: op}
+				parentOf[op] = w
+				return w
+			}
+			return leaf.Expr(field, i)
+		},
+		Stmt: func(field string, i int) ast.Stmt {
+			// (positions the parser fills with a fixed kind keep that kind; a case
+			// clause only occurs under a switch)
+			if zzKindCat[k2] == "stmt" && field != "IfStmt.ElseIf" && field != "SwitchStmt.Cases" && zzKinds[k2] != "SwitchCaseStmt" {
+				return mkChild().(ast.Stmt)
+			}
+			return leaf.Stmt(field, i)
+		},
+		Op: func(field string, i int) ast.Operator {
+			if zzKindCat[k2] == "op" {
+				return mkChild().(ast.Operator)
+			}
+			return leaf.Op(field, i)
+		},
+		N:    func(field string) int { return n },
+		Skip: func(field string) bool { return false },
+	}
+	root := zzBuild(k1, makers, &kids)
+	stmt := zzWrap(root, zzKindCat[k1])
+	var log []interface{}
+	err := Walk(stmt, func(x interface{}) error {
+		log = append(log, x)
+		return nil
+	})
+	id := zzKinds[k1] + ">" + zzKinds[k2]
+	zz.Assert(err == nil, "C17.pairs.no-error/"+id)
+	if err != nil {
+		return
+	}
+	rootAt, rootCount := zzIndexOf(log, root)
+	zz.Assert(rootCount == 1, "C17.pairs.node-presented-once/"+id)
+	for _, c := range append(kids, extra...) {
+		at, cnt := zzIndexOf(log, c)
+		zz.Assert(cnt == 1, "C17.pairs.descendant-presented-once/"+id)
+		if cnt >= 1 && rootCount >= 1 {
+			zz.Assert(at > rootAt, "C17.pairs.parent-before-child/"+id)
+		}
+		if p, ok := parentOf[c]; ok && cnt >= 1 {
+			pat, pc := zzIndexOf(log, p)
+			zz.Assert(pc >= 1 && pat < at, "C17.pairs.parent-before-child/"+id)
+		}
+	}
+}
